@@ -22,6 +22,7 @@ type Param struct {
 	Alias    string `json:"alias,omitempty"`    // {name: "..."}
 	Validate string `json:"validate,omitempty"` // {validate: "..."}
 	Ref      string `json:"ref,omitempty"`      // name written in the annotation when it differs from Name (perturbations)
+	NewDecl  bool   `json:"new_decl,omitempty"` // with Method.GroupParams: starts a declaration of its own even if the previous parameter has the same type
 }
 
 // Method is one controller method with its annotations.
@@ -69,6 +70,7 @@ type Unit struct {
 	Controllers []Controller
 	Decls       map[string]string   // package dir -> extra Go declarations (types, enums, aliases)
 	Imports     map[string][]string // package dir -> extra import paths ("alias path" or just path)
+	Files       map[string]string   // "<package dir>/<file>.go" -> further declarations of that package in a file of their own
 }
 
 func S(s string) *string { return &s }
@@ -177,7 +179,7 @@ func renderMethod(sb *strings.Builder, c Controller, m Method) {
 		p := m.Params[i]
 		names := p.Name
 		// GroupParams: consecutive parameters of one type share a declaration ("a, b, c string")
-		for m.GroupParams && i+1 < len(m.Params) && m.Params[i+1].Type == p.Type {
+		for m.GroupParams && i+1 < len(m.Params) && m.Params[i+1].Type == p.Type && !m.Params[i+1].NewDecl {
 			i++
 			names += ", " + m.Params[i].Name
 		}
@@ -270,6 +272,11 @@ func Render(p *Project, units []Unit) []string {
 			for _, imp := range u.Imports[pkg] {
 				f.imports[imp] = true
 			}
+		}
+		for path, decl := range u.Files {
+			i := strings.LastIndexByte(path, '/')
+			pkgs[path[:i]] = true
+			get(path[:i], path[i+1:]).body.WriteString(decl + "\n")
 		}
 		for _, c := range u.Controllers {
 			pkgs[c.Pkg] = true
